@@ -341,3 +341,53 @@ func showIndex() string {
 	}
 	return "[" + strings.Join(ss, " ") + "]"
 }
+
+// ---- the posting path: after every post the cached total is the record count ---------------------
+
+func judgePost(i int, out string) {
+	if out == "PANIC" || out == "TIMEOUT" {
+		run.Fail(i, "crash:post", "NewPost "+out+": "+hx.LastPanic)
+		return
+	}
+	var l, t int
+	if _, err := fmt.Sscanf(out, "len=%d total=%d", &l, &t); err != nil {
+		run.Fail(i, "post:failed", "NewPost by SYSOP on the fixture board failed: "+out)
+		return
+	}
+	// every log board the post was copied to: its cached total is its record count (0 = not asked yet, re-counted
+	// lazily, is the only other legitimate value)
+	for _, st := range logStates() {
+		if st.cached != st.records && st.cached != 0 {
+			run.Fail(i, "post:logboard-total-cold-bump", fmt.Sprintf("after NewPost the log board %s has %d records but a cached total of %d", st.name, st.records, st.cached))
+		}
+	}
+	if t != l {
+		run.Fail(i, "post:total-not-resynced", fmt.Sprintf("after NewPost the cached total is %d, .DIR %s has %d records", t, showIndex(), l))
+	}
+}
+
+func judgeFindLast(i int, desc bool, out string) {
+	if out == "PANIC" || out == "TIMEOUT" {
+		if out == "TIMEOUT" {
+			timeouts++
+		}
+		run.Fail(i, "crash:findlast", "FindArticleStartIdx "+out+": "+hx.LastPanic)
+		return
+	}
+	if !synced || len(cur) == 0 {
+		return
+	}
+	es := curEnts()
+	last := es[len(es)-1]
+	if !wellFormed(es) || !last.valid {
+		return
+	}
+	exp := "err:notfound"
+	if p, ok := specFind(es, last.t, &last.key, desc); ok {
+		exp = fmt.Sprintf("ok %d", p)
+	}
+	if out != exp {
+		run.Fail(i, "post:newest-lookup-"+dirName(desc), fmt.Sprintf("index %s (cached total %d): looking the newest article up by its name %s = %s, linear scan of the file = %s",
+			showIndex(), getCached(), dirName(desc), out, exp))
+	}
+}
